@@ -12,6 +12,7 @@ pub(crate) mod h_scope;
 pub(crate) mod h_typed;
 pub(crate) mod h_coll;
 pub(crate) mod h_grow;
+pub(crate) mod h_coll2;
 pub(crate) mod h_selftest;
 
 /// Concrete playback tests of failed obligations (generated on demand by vf/run_kani.py;
